@@ -1,7 +1,7 @@
 # Per-property configuration of the driver.  `variants` are build variants of the check's test
 # package; every variant is built from /repo's current working tree on each invocation.
 PLAIN = {"name": "plain"}
-HOOK_COMMITS = ["f739e43"]
+HOOK_COMMITS = ["f739e43", "b9c4c4e"]
 NOT_APPLICABLE = {}
 
 CHECKS = {
@@ -227,5 +227,22 @@ CHECKS = {
         "level_text": "Enumeration of every type of a generated binary in shuffled orders, per seed one linker layout; exploration level over layouts.",
         "level_note": "One linker layout per run (per VERIF_SEED and tier); layouts are sampled, not enumerated. The corpus grammar constructs around the open encoder/decoder findings (see DESIGN.md).",
         "assumptions": ["encoding/json defines the expected encoding of each type", "hook counters > 0 show the assertions ran (checked by the harness)"],
+    },
+    "C08": {
+        "pkg": "c08",
+        "corpus": {"quick": 240, "thorough": 1600, "profile": "recursive"},
+        "variants": [{"name": "hooks", "tags": "verif"},
+                     {"name": "plain", "shards": {"quick": 4, "thorough": 16}}],
+        "mem_gb": 8, "hang_cpu": 240,
+        "rule": ("cmd/gencorpus writes N named struct types per VERIF_SEED, each with a recursive member at a drawn position (self through pointer, slice, slice of pointers, map, interface; mutual recursion in pairs; "
+                 "embedded structs; every field kind before and after the recursive member; marshal methods incl. ones that allocate, force a collection and grow the stack). Per type: filled values; for every "
+                 "self link a chain of depth 0,1,2,3,10,100,999,1000,1001,1500,2000 and a cycle of length 1,2,3,50,1001,1500 through that link; plus interface-only values (map/slice/mixed nesting of the same depths, "
+                 "cyclic variants) and frame-local values whose first member's marshaler grows the stack. Each value goes through Marshal, MarshalIndent, Colorize, Colorize+Indent, Encoder without HTML escaping and "
+                 "MarshalNoEscape. Oracles: acyclic: no panic/death/hang, output token-equal to encoding/json, slot hook (-tags verif: every slot access inside the slot array of a live context) silent; cyclic: every "
+                 "entry point returns an error. Non-trivial = the type has a recursive member; distinct by (type, build, link, depth, seed)."),
+        "technique": "generated-program testing (type corpus with recursive shapes compiled per seed) x structured value construction (chains, cycles) with an encoding/json differential oracle and a slot-bounds assertion hook",
+        "level_text": "Exploration of recursive type shapes x nesting depths x cycles through all interpreters; exploration level.",
+        "level_note": "Chains through types whose marshal methods re-encode the receiver stop at depth 100 and get no cycles (any encoder recurses natively there). Indenting entry points on map chains deeper than 300 are an open finding (memory).",
+        "assumptions": ["encoding/json defines the expected output and which values are cyclic"],
     },
 }
